@@ -18,6 +18,7 @@ def _strip(p):
     direct construction in which a declaration comes after other operations)."""
     q = {k: v for k, v in p.items() if k not in SKIP}
     q["ch"] = sorted(q["ch"], key=lambda c: c["nm"])
+    q["rf"] = sorted(q["rf"], key=lambda r: r["b"])      # order of first use of a basis likewise
     return q
 
 
